@@ -414,3 +414,175 @@ fn c18_format_string_wrong_type() {
         _ => assert!(false),
     }
 }
+
+// ---------------------------------------------------------------------------------------------
+// C20: str.format template splitting
+
+/// "<c1><c2>Z" / "<c1>" / "" as a str over a caller-provided buffer (n = number of symbolic chars).
+fn two_chars_then_z(c1: char, c2: char, n: usize, buf: &mut [u8; 9]) -> &str {
+    let mut off = 0;
+    if n >= 1 {
+        off += c1.encode_utf8(&mut buf[0..4]).len();
+    }
+    if n >= 2 {
+        let l1 = off;
+        off += c2.encode_utf8(&mut buf[l1..l1 + 4]).len();
+        buf[off] = b'Z';
+        off += 1;
+    }
+    unsafe { std::str::from_utf8_unchecked(&buf[..off]) }
+}
+
+// @ob id=C20.k.parse_literal_single props=C20,C03 kind=complete tier=quick
+// @clause literal scanner step with doubled-brace unescaping: for every non-empty text, an ordinary first character is returned and exactly it is consumed; '{{' and '}}' yield one literal brace and consume both; a single '{' or '}' (followed by anything else, or by nothing) is rejected - all pairs of chars, cut on character boundaries (the step reads at most two characters, so this is complete)
+// @fns FormatString::parse_literal_single
+#[kani::proof]
+#[kani::unwind(6)]
+#[kani::stub(core::str::slice_error_fail, slice_error_fail_plain)]
+fn c20_parse_literal_single() {
+    let c1: char = kani::any();
+    let c2: char = kani::any();
+    let n: usize = kani::any();
+    kani::assume(n == 1 || n == 2);
+    let mut buf = [0u8; 9];
+    let text = two_chars_then_z(c1, c2, n, &mut buf);
+    let total = text.len();
+    let r = ManuallyDrop::new(FormatString::parse_literal_single(text));
+    let brace = c1 == '{' || c1 == '}';
+    let doubled = brace && n == 2 && c2 == c1;
+    match &*r {
+        Ok((ch, rest)) => {
+            assert!(*ch == c1);
+            assert!(!brace || doubled);
+            let consumed = if doubled { 2 } else { c1.len_utf8() };
+            assert!(rest.len() == total - consumed);
+            if n == 2 {
+                assert!(rest.as_bytes()[rest.len() - 1] == b'Z');
+            }
+        }
+        Err(e) => {
+            assert!(brace && !doubled);
+            assert!(matches!(e, FormatParseError::UnescapedStartBracketInLiteral));
+        }
+    }
+    kani::cover!(doubled);
+    kani::cover!(brace && !doubled && n == 1);
+    kani::cover!(!brace && c1.len_utf8() == 4);
+}
+
+// ---------------------------------------------------------------------------------------------
+// C18: fill/align, width, precision
+
+// @ob id=C18.k.fill_and_align props=C18,C03 kind=complete tier=quick
+// @clause fill and alignment: a fill character (ANY character, also multi-byte) is taken exactly when the SECOND character is an alignment character; otherwise a leading alignment character alone is taken; otherwise nothing - and the remaining text is the input minus exactly the consumed characters, cut on character boundaries (all pairs of chars and shorter texts; the function looks at no more than the first two characters)
+// @fns parse_fill_and_align FormatAlign::parse
+#[kani::proof]
+#[kani::unwind(7)]
+#[kani::stub(core::str::slice_error_fail, slice_error_fail_plain)]
+fn c18_fill_and_align() {
+    let c1: char = kani::any();
+    let c2: char = kani::any();
+    let n: usize = kani::any();
+    kani::assume(n <= 2);
+    let mut buf = [0u8; 9];
+    let text = two_chars_then_z(c1, c2, n, &mut buf);
+    let total = text.len();
+    let (fill, align, rest) = parse_fill_and_align(text);
+    let a1 = if n >= 1 { FormatAlign::from_char(c1) } else { None };
+    let a2 = if n >= 2 { FormatAlign::from_char(c2) } else { None };
+    if a2.is_some() {
+        assert!(fill == Some(c1));
+        assert!(align == a2);
+        assert!(rest.len() == total - c1.len_utf8() - 1);
+    } else if a1.is_some() {
+        assert!(fill.is_none());
+        assert!(align == a1);
+        assert!(rest.len() == total - 1);
+    } else {
+        assert!(fill.is_none() && align.is_none());
+        assert!(rest.len() == total);
+    }
+    kani::cover!(a2.is_some() && c1.len_utf8() == 3);
+    kani::cover!(a2.is_none() && a1.is_some() && n == 2);
+    kani::cover!(n == 0);
+}
+
+// @ob id=C18.k.parse_number props=C18,C03 kind=bounded tier=quick
+// @bound ASCII texts of up to 4 characters (each any ASCII byte), i.e. widths up to 9999; the too-many-digits error path is not reached within this bound
+// @clause width: the longest run of leading ASCII digits is the width (its decimal value) and exactly those digits are consumed; no digits means no width and nothing consumed
+// @fns parse_number get_num_digits
+#[kani::proof]
+#[kani::unwind(7)]
+#[kani::stub(core::str::slice_error_fail, slice_error_fail_plain)]
+fn c18_parse_number() {
+    let d: [u8; 4] = kani::any();
+    let n: usize = kani::any();
+    kani::assume(n <= 4);
+    for i in 0..4 {
+        kani::assume(d[i] < 128);
+    }
+    let text = unsafe { std::str::from_utf8_unchecked(&d[..n]) };
+    let r = ManuallyDrop::new(parse_number(text));
+    let mut k = 0;
+    let mut v: usize = 0;
+    for i in 0..4 {
+        if i == k && i < n && d[i] >= b'0' && d[i] <= b'9' {
+            v = v * 10 + (d[i] - b'0') as usize;
+            k += 1;
+        }
+    }
+    match &*r {
+        Ok((num, rest)) => {
+            assert!(rest.len() == n - k);
+            if k == 0 {
+                assert!(num.is_none());
+            } else {
+                assert!(*num == Some(v));
+            }
+        }
+        Err(_) => assert!(false),
+    }
+    kani::cover!(k == 4);
+    kani::cover!(k == 2 && n == 4);
+}
+
+// @ob id=C18.k.parse_precision props=C18,C03 kind=bounded tier=quick
+// @bound ASCII texts of up to 4 characters
+// @clause precision: '.' followed by digits is a precision with their value, consuming the dot and the digits; a '.' without digits, or no '.', gives no precision and consumes nothing
+// @fns parse_precision parse_number
+#[kani::proof]
+#[kani::unwind(7)]
+#[kani::stub(core::str::slice_error_fail, slice_error_fail_plain)]
+fn c18_parse_precision() {
+    let d: [u8; 4] = kani::any();
+    let n: usize = kani::any();
+    kani::assume(n <= 4);
+    for i in 0..4 {
+        kani::assume(d[i] < 128);
+    }
+    let text = unsafe { std::str::from_utf8_unchecked(&d[..n]) };
+    let r = ManuallyDrop::new(parse_precision(text));
+    let dot = n >= 1 && d[0] == b'.';
+    let mut k = 1;
+    let mut v: usize = 0;
+    for i in 1..4 {
+        if dot && i == k && i < n && d[i] >= b'0' && d[i] <= b'9' {
+            v = v * 10 + (d[i] - b'0') as usize;
+            k += 1;
+        }
+    }
+    match &*r {
+        Ok((p, rest)) => {
+            if dot && k > 1 {
+                assert!(*p == Some(v));
+                assert!(rest.len() == n - k);
+            } else {
+                assert!(p.is_none());
+                assert!(rest.len() == n);
+            }
+        }
+        Err(_) => assert!(false),
+    }
+    kani::cover!(dot && k == 4);
+    kani::cover!(dot && k == 1);
+}
